@@ -34,6 +34,19 @@ from .cfg import CFG, Node
 from .flow import node_expr_roots
 from .source import iter_own_nodes, text
 
+class _Other:
+    """A value different from every constant (stands for "anything not listed" in a parameter domain)."""
+    def __repr__(self):
+        return '<other>'
+
+    def __eq__(self, o):
+        return o is self
+
+    def __hash__(self):
+        return 7
+
+
+OTHER = _Other()
 TOP = ('top',)  # unknown value (parameter or non-constant)
 UNDEF = ('undef',)  # not bound yet
 
@@ -91,11 +104,26 @@ def _same(a: Token, b: Token, identity: bool) -> Optional[bool]:
 
 class Flags:
     def __init__(self, cfg: CFG, params: Iterable[str], const_of: Callable[[ast.AST], Optional[Token]] = default_const_of,
-                 extra_flags: Iterable[str] = ()) -> None:
+                 extra_flags: Iterable[str] = (), domains: Optional[Dict[str, List[object]]] = None) -> None:
+        """`domains`: parameters with a finite set of interesting values ({'errors': ['raise', 'skip', ..., OTHER]});
+        the exploration starts once per combination, so tests on them are decided path by path.  OTHER stands for
+        "any value not listed" (it compares unequal to every constant)."""
         self.cfg = cfg
         self.const_of = const_of
         self.params = list(params)
+        self.domains = {k: list(v) for k, v in (domains or {}).items()}
         self.vars: List[str] = self._find_flags()
+        # a domain *parameter* that the function rebinds is not tracked; a domain *local* takes every value of its
+        # domain wherever it is bound to something that is not a constant (the result of a call, a loop target)
+        rebound = set()
+        for n in iter_own_nodes(cfg.fnode):
+            if isinstance(n, ast.Name) and isinstance(n.ctx, (ast.Store, ast.Del)) and n.id in self.domains and n.id in self.params:
+                rebound.add(n.id)
+        for k in rebound:
+            self.domains.pop(k)
+        self.local_domains = {k: v for k, v in self.domains.items() if k not in self.params}
+        self.domains = {k: v for k, v in self.domains.items() if k in self.params}
+        self.vars = sorted(set(self.vars) | set(self.domains) | set(self.local_domains))
         self.idx = {v: i for i, v in enumerate(self.vars)}
         self.states: Dict[int, Set[State]] = {}
         self.succ: Dict[PNode, List[Tuple[PNode, str]]] = {}
@@ -216,6 +244,16 @@ class Flags:
                 if r is None:
                     return None
                 return r if isinstance(op, (ast.Eq, ast.Is)) else (not r)
+            if isinstance(op, (ast.In, ast.NotIn)) and isinstance(e.comparators[0], (ast.Tuple, ast.List, ast.Set)):
+                a = self.val(e.left, s)
+                rs = [_same(a, self.val(x, s), False) for x in e.comparators[0].elts]
+                if any(r is True for r in rs):
+                    res = True
+                elif all(r is False for r in rs):
+                    res = False
+                else:
+                    return None
+                return res if isinstance(op, ast.In) else (not res)
             return None
         if isinstance(e, ast.IfExp):
             t = self.ev(e.test, s)
@@ -249,7 +287,7 @@ class Flags:
         out = []
         if n.kind == 'stmt' and isinstance(a, ast.Assign):
             for t in a.targets:
-                if isinstance(t, ast.Name) and t.id in self.idx:
+                if isinstance(t, ast.Name) and t.id in self.idx and (t.id not in getattr(self, 'local_domains', {}) or self._flag_value(a.value)):
                     out.append((t.id, a.value))
         elif n.kind == 'stmt' and isinstance(a, ast.AnnAssign) and isinstance(a.target, ast.Name) and a.target.id in self.idx and a.value is not None:
             out.append((a.target.id, a.value))
@@ -268,6 +306,27 @@ class Flags:
                 elif lab not in ('T', 'F'):
                     res.append((b, lab, s))
             return res
+        if self.local_domains:
+            from .flow import bound_on_edge, names_bound
+            forks = [v for v in names_bound(n) if v in self.local_domains and not any(nm == v for (nm, _v) in self._assigns(n) if self.const_of(_v) is not None)]
+            edge_forks = {}
+            for (b, lab) in n.succ:
+                ef = [v for v in bound_on_edge(self.cfg, n.id, lab) if v in self.local_domains]
+                if ef:
+                    edge_forks[(b, lab)] = ef
+            if forks or edge_forks:
+                import itertools
+                for (b, lab) in n.succ:
+                    names = list(forks if lab not in ('exc', 'raise') else []) + edge_forks.get((b, lab), [])
+                    if not names:
+                        res.append((b, lab, s))
+                        continue
+                    for combo in itertools.product(*[self.local_domains[v] for v in names]):
+                        l = list(s)
+                        for v, val in zip(names, combo):
+                            l[self.idx[v]] = ('c', type(val).__name__, val)
+                        res.append((b, lab, tuple(l)))
+                return res
         asg = self._assigns(n)
         if asg:
             posts: Set[State] = {s}
@@ -289,10 +348,17 @@ class Flags:
         return [(b, lab, s) for (b, lab) in n.succ]
 
     def _explore(self) -> None:
-        init = tuple(TOP if v in self.params else UNDEF for v in self.vars)
-        start: PNode = (self.cfg.entry, init)
-        seen: Set[PNode] = {start}
-        stack = [start]
+        import itertools
+        dom_vars = [v for v in self.vars if v in self.domains]
+        combos = list(itertools.product(*[self.domains[v] for v in dom_vars])) if dom_vars else [()]
+        inits = []
+        for combo in combos:
+            vals = dict(zip(dom_vars, combo))
+            inits.append(tuple((('c', type(vals[v]).__name__, vals[v]) if v in vals else (TOP if v in self.params else UNDEF)) for v in self.vars))
+        self.starts = [(self.cfg.entry, i) for i in inits]
+        start = self.starts[0]
+        seen: Set[PNode] = set(self.starts)
+        stack = list(self.starts)
         while stack:
             pn = stack.pop()
             nid, s = pn
@@ -351,7 +417,7 @@ class Flags:
 
     def must_take(self, targets: Set[PNode], edges: Iterable[Tuple[int, str]]) -> bool:
         """Every feasible path entry -> target takes one of the CFG edges (node, label)."""
-        r = self.reach([self.start], skip_edges=edges)
+        r = self.reach(self.starts, skip_edges=edges)
         return not (r & targets)
 
     def last_test(self, targets: Set[PNode], test_id: int, label: str) -> bool:
@@ -359,7 +425,7 @@ class Flags:
         left by `label`."""
         if not targets:
             return True
-        if self.reach([self.start], avoid_nodes=[test_id]) & targets:
+        if self.reach(self.starts, avoid_nodes=[test_id]) & targets:
             return False
         others: List[PNode] = []
         for s in self.states_at(test_id):
@@ -371,8 +437,8 @@ class Flags:
     def some_path(self, target: PNode, avoid_nodes: Iterable[int] = (), skip_edges: Iterable[Tuple[int, str]] = ()) -> Optional[List[int]]:
         from collections import deque
         av, se = set(avoid_nodes), set(skip_edges)
-        prev: Dict[PNode, Optional[PNode]] = {self.start: None}
-        dq = deque([self.start])
+        prev: Dict[PNode, Optional[PNode]] = {s_: None for s_ in self.starts}
+        dq = deque(self.starts)
         while dq:
             p = dq.popleft()
             if p == target:
